@@ -129,7 +129,9 @@ __CPROVER_requires(model_pick_map == NONE && model_pick2_map == NONE && model_pi
 __CPROVER_assigns(STEPPING(p), IP(p), V(p)->data._n, V(p)->stack._n, V(p)->enabled_breakpoints._n,
                   __CPROVER_object_whole(CODE(p)), MODEL_MAP_GHOSTS, g_cur_lo, g_cur_hi)
 /* the abstract state of a freshly constructed machine on the same program */
-__CPROVER_ensures(STEPPING(p) == 0 && IP(p) == 0 && M(p) == 0 && D(p) == 0 && NEN(p) == 0) /*@C17,C06,C19*/
+/* (C07/C16: no activation of the previous run survives - the next run starts from an empty stack, so activation views are
+ * those of the new run and the stack bound is counted from zero) */
+__CPROVER_ensures(STEPPING(p) == 0 && IP(p) == 0 && M(p) == 0 && D(p) == 0 && NEN(p) == 0) /*@C17,C06,C19,C07,C16*/
 __CPROVER_ensures(CODE_G_PARAMS_SAME(p)) /*@C17,C05*/
 __CPROVER_ensures(CODE_G_OP_DEBUGGER_ONLY(p)) /*@C17,C05*/
 __CPROVER_ensures(g_e >= OLD(NEN(p)) || g_w >= NPB(p) || !BPEQ(PB(p)[g_w].first, ge_file, ge_line) || g_s >= SITES(p, g_w)._n ||
